@@ -411,7 +411,7 @@ def run(ctx):
 
     # ---- R4 start Deferred
     r = ctx.rule("R4", "start Deferred: created once under `_start_d is None`, cleared only by stop(), fired under "
-                       "`not called` with the processed offset", 3, "B")
+                       "`not called` with the processed offset; start() returns the Deferred it created; its failure is the last word", 8, "B")
     for f, k, node in prog.attr_accesses(ci, "_start_d", False):
         if k != "write" or f.name == "__init__":
             continue
@@ -425,6 +425,75 @@ def run(ctx):
             r.check(f is start and ("self._start_d is None", True) in facts, "%s#create(_start_d)" % f.qname,
                     "start Deferred created without the already-started test", where(f, node),
                     "second start() replaces the Deferred: the first never fires")
+    # what start() returns is the Deferred it created: the attribute may have been cleared by then (the first reply can be
+    # there at once and the processor may stop() the consumer before start() returns)
+    cst = ctx.cfg(start)
+    def _created(n):
+        v_ = node_assign_value(n, "_start_d")
+        if v_ is None or (isinstance(v_, ast.Constant) and v_.value is None):
+            return None
+        og_ = value_origins(cst, n.id, v_, params=start.params) or []
+        return og_[0][1] if len(og_) == 1 and isinstance(og_[0][1], ast.Call) else None
+    creates = [n for n in cst.nodes if _created(n) is not None]
+    sret = [n for n in cst.nodes if n.kind == "stmt" and isinstance(n.stmt, ast.Return) and creates and n.id in cst.reach([creates[0].id])]
+    okr, whyr = bool(creates) and bool(sret), "start() does not return after creating its Deferred"
+    writers = {f_.qname for f_, k_, _n in prog.attr_accesses(ci, "_start_d", False) if k_ == "write" and f_.name != "__init__"}
+    for n in sret:
+        og_ = value_origins(cst, n.id, n.stmt.value, params=start.params) if n.stmt.value is not None else None
+        if og_ and all(e_ is _created(creates[0]) for _d, e_ in og_):
+            continue
+        if n.stmt.value is not None and self_attr(n.stmt.value) == "_start_d":
+            # re-read of the attribute: fine only if nothing called in between can write it
+            between = cst.reach([creates[0].id]) & (set(cst._reaching_to(n.id)) if hasattr(cst, "_reaching_to") else set())
+            risky = []
+            for i_ in between:
+                for c_ in cst.nodes[i_].calls():
+                    g_ = prog.resolve_call(start, c_)
+                    if g_ is None:
+                        continue
+                    reach_ = reachable_funcs(prog, g_, follow_registered=True, depth=10)
+                    # application code (a callable held in an instance attribute, e.g. the processor) may call any public
+                    # method of the object
+                    app_ = [h_ for h_ in reach_.values() for x_ in walk_body_shallow(h_.body) if isinstance(x_, ast.Call) and self_attr(x_.func)
+                            and h_.cls is not None and self_attr(x_.func) not in h_.cls.methods and prog.resolve_call(h_, x_) is None]
+                    pub_writers = {q_ for q_ in writers if not q_.split(".")[-1].startswith("_")}
+                    if writers & set(reach_) or (app_ and pub_writers):
+                        risky.append("%s (line %d)" % (g_.qname, cst.nodes[i_].lineno))
+            if not risky:
+                continue
+            okr, whyr = False, "start() returns a re-read of `self._start_d` after calling %s, which can reach a writer of it (stop() clears it)" % ", ".join(sorted(set(risky)))
+        else:
+            okr, whyr = False, "start() returns `%s`, not the Deferred it created" % (norm(n.stmt.value) if n.stmt.value is not None else None)
+    r.check(okr, "%s#returns-created-deferred" % start.qname, whyr, where(start, sret[0].stmt if sret else start.node),
+            "the first reply is available at once and the processor stops the consumer: start() returns None instead of the fired Deferred")
+    # the failure of the start Deferred is the consumer's last word: the function that reports it issues no request and
+    # arms no timer afterwards
+    def _active(f_, c_):
+        if call_name(c_) == "callLater" or (call_name(c_) or "").startswith("send_") and (call_recv(c_) or "").startswith("self.client"):
+            return True
+        g_ = prog.resolve_call(f_, c_)
+        return g_ is not None and g_.cls is ci and any(
+            call_name(y) == "callLater" or ((call_name(y) or "").startswith("send_") and (call_recv(y) or "").startswith("self.client"))
+            for h_ in reachable_funcs(prog, g_).values() for y in calls_in(h_))
+    n_eb = 0
+    for f_ in sorted([x for x in prog.funcs.values() if x.module.name == "consumer" and (x.cls is ci or (x.parent is not None))], key=lambda x: x.qname):
+        top_ = f_
+        while top_.parent is not None:
+            top_ = top_.parent
+        if top_.cls is not ci:
+            continue
+        cfe = ctx.cfg(f_)
+        for n in cfe.nodes:
+            if not any(call_name(c) == "errback" and call_recv(c) == "self._start_d" for c in n.calls()):
+                continue
+            n_eb += 1
+            after = [cfe.nodes[i] for i in cfe.reach([n.id], follow_exc=False)]
+            late = [m for m in after if any(_active(f_, c) for c in m.calls())]
+            r.check(not late, "%s#reports-failure-then-nothing(line-of:%s)" % (f_.qname, norm(n.stmt, 40)),
+                    "after failing the start Deferred the function goes on to %s" % ", ".join("`%s` (line %d)" % (m.text(50), m.lineno) for m in late[:2]),
+                    where(f_, n.stmt), "the failure has been reported and the consumer keeps requesting / retrying; with an attempt limit the "
+                    "Deferred is failed a second time (AlreadyCalledError)")
+    need(n_eb >= 3, "fewer than 3 sites failing the start Deferred")
     cs = ctx.cfg(stop)
     fires = [(n, c) for n in cs.nodes for c in n.calls() if call_name(c) == "callback" and not (call_recv(c) or "").startswith("_msg")]
     okf = False
